@@ -76,7 +76,16 @@ func hasFail(fs []fail, kind string) bool {
 	return false
 }
 
-var scripts = []string{"killed-replace", "price-drop-extend", "kill-twice-close", "challenge-cycle", "challenge-cycle", "exhaust-write-pool"}
+var scripts = []string{"killed-replace", "price-drop-extend", "kill-twice-close", "challenge-cycle", "challenge-cycle", "exhaust-write-pool",
+	"fail-then-replace-alive", "upload-delete-close", "price-drop-all-extend"}
+
+// the paths a property depends on most are scripted more often when that property is checked
+var scriptsMore = map[string][]string{
+	"C12": {"fail-then-replace-alive", "fail-then-replace-alive", "price-drop-all-extend", "upload-delete-close"},
+	"C14": {"upload-delete-close", "upload-delete-close", "fail-then-replace-alive"},
+	"C09": {"price-drop-all-extend", "price-drop-all-extend", "fail-then-replace-alive", "upload-delete-close"},
+	"C13": {"fail-then-replace-alive"},
+}
 
 var scriptsC04 = []string{"third-party-extend", "owner-handover", "third-party-extend", "owner-handover", "killed-replace", "price-drop-extend", "kill-twice-close", "challenge-cycle"}
 
@@ -201,6 +210,9 @@ func main() {
 			g.script, g.step = scripts[hr.Intn(len(scripts))], 0
 			if prop == "C04" {
 				g.script = scriptsC04[hr.Intn(len(scriptsC04))]
+			}
+			if more := scriptsMore[prop]; len(more) > 0 && hr.Chance(1, 3) {
+				g.script = more[hr.Intn(len(more))]
 			}
 		}
 		run := NewRun(h)
